@@ -52,14 +52,51 @@ def _cur() -> "Explorer":
     return _CUR
 
 
+_INTVALS: dict[int, Any] = {}
+
+
+def _intval(n: int) -> Any:
+    v = _INTVALS.get(n)
+    if v is None:
+        v = z3.IntVal(n)
+        if -4096 <= n <= 4096:
+            _INTVALS[n] = v
+    return v
+
+
 def _term(x: Any) -> Any:
     if isinstance(x, SymInt):
         return x.t
     if isinstance(x, bool):
-        return z3.IntVal(1 if x else 0)
+        return _intval(1 if x else 0)
     if isinstance(x, int):
-        return z3.IntVal(x)
+        return _intval(x)
     return None
+
+
+_MEMO: dict[tuple[int, int, int], Any] = {}
+_OPS = {
+    0: lambda a, b: a + b,
+    1: lambda a, b: a - b,
+    2: lambda a, b: a * b,
+    3: lambda a, b: a < b,
+    4: lambda a, b: a <= b,
+    5: lambda a, b: a > b,
+    6: lambda a, b: a >= b,
+    7: lambda a, b: a == b,
+    8: lambda a, b: a != b,
+}
+
+
+def _mk(op: int, a: Any, b: Any) -> Any:
+    """Memoised term construction (terms are rebuilt identically on every re-execution)."""
+    k = (op, a.get_id(), b.get_id())
+    r = _MEMO.get(k)
+    if r is None:
+        r = _OPS[op](a, b)
+        _MEMO[k] = (r, a, b)  # keep operands alive so ids are not reused
+        return r
+    return r[0]
 
 
 class SymInt:
@@ -69,33 +106,33 @@ class SymInt:
         self.t = t
 
     # -- arithmetic ------------------------------------------------------------------
-    def _bin(self, other: Any, f: Callable[[Any, Any], Any], swap: bool = False) -> Any:
+    def _bin(self, other: Any, op: int, swap: bool = False) -> Any:
         o = _term(other)
         if o is None:
             return NotImplemented
-        return SymInt(f(o, self.t) if swap else f(self.t, o))
+        return SymInt(_mk(op, o, self.t) if swap else _mk(op, self.t, o))
 
     def __add__(self, o: Any) -> Any:
-        return self._bin(o, lambda a, b: a + b)
+        return self._bin(o, 0)
 
     def __radd__(self, o: Any) -> Any:
-        return self._bin(o, lambda a, b: a + b, True)
+        return self._bin(o, 0, True)
 
     def __sub__(self, o: Any) -> Any:
-        return self._bin(o, lambda a, b: a - b)
+        return self._bin(o, 1)
 
     def __rsub__(self, o: Any) -> Any:
-        return self._bin(o, lambda a, b: a - b, True)
+        return self._bin(o, 1, True)
 
     def __mul__(self, o: Any) -> Any:
         if isinstance(o, (str, bytes, list, tuple)):
             raise HarnessError("sequence * SymInt (symbolic repetition) is not supported")
-        return self._bin(o, lambda a, b: a * b)
+        return self._bin(o, 2)
 
     def __rmul__(self, o: Any) -> Any:
         if isinstance(o, (str, bytes, list, tuple)):
             raise HarnessError("sequence * SymInt (symbolic repetition) is not supported")
-        return self._bin(o, lambda a, b: a * b, True)
+        return self._bin(o, 2, True)
 
     def __floordiv__(self, o: Any) -> Any:
         # z3 integer div is floor division for positive divisors; require a positive constant
@@ -118,35 +155,35 @@ class SymInt:
         return SymInt(z3.If(self.t >= 0, self.t, -self.t))
 
     # -- comparisons -----------------------------------------------------------------
-    def _cmp(self, other: Any, f: Callable[[Any, Any], Any]) -> Any:
+    def _cmp(self, other: Any, op: int) -> Any:
         o = _term(other)
         if o is None:
             return NotImplemented
-        return SymBool(f(self.t, o))
+        return SymBool(_mk(op, self.t, o))
 
     def __lt__(self, o: Any) -> Any:
-        return self._cmp(o, lambda a, b: a < b)
+        return self._cmp(o, 3)
 
     def __le__(self, o: Any) -> Any:
-        return self._cmp(o, lambda a, b: a <= b)
+        return self._cmp(o, 4)
 
     def __gt__(self, o: Any) -> Any:
-        return self._cmp(o, lambda a, b: a > b)
+        return self._cmp(o, 5)
 
     def __ge__(self, o: Any) -> Any:
-        return self._cmp(o, lambda a, b: a >= b)
+        return self._cmp(o, 6)
 
     def __eq__(self, o: Any) -> Any:  # type: ignore[override]
         t = _term(o)
         if t is None:
             return False
-        return SymBool(self.t == t)
+        return SymBool(_mk(7, self.t, t))
 
     def __ne__(self, o: Any) -> Any:  # type: ignore[override]
         t = _term(o)
         if t is None:
             return True
-        return SymBool(self.t != t)
+        return SymBool(_mk(8, self.t, t))
 
     def __bool__(self) -> bool:
         return bool(SymBool(self.t != 0))
@@ -231,11 +268,17 @@ def term_of(x: Any) -> Any:
 # ------------------------------------------------------------------------------------------
 
 
+_CONSTS: dict[int, Any] = {}
+_CONST_KEEP: list[Any] = []
+
+
 @dataclass
 class Decision:
     taken: bool
     has_alt: bool
-    key: str
+    key: int      # z3 AST id (terms are hash-consed; `term` keeps the AST alive so ids stay comparable)
+    term: Any
+    neg: Any = None
 
 
 @dataclass
@@ -278,11 +321,14 @@ class Explorer:
         self.solver = z3.Solver()
         self.solver.set("timeout", timeout_ms)
         self.pre: list[Any] = []
+        self._pre_ids: set[int] = set()
         self.pc: list[Any] = []
         self.trail: list[Decision] = []
         self.pos = 0
         self.model: Any = None
         self._vars: dict[str, Any] = {}
+        self.solver_depth = 0
+        self._base_dirty = True
         self._path_violations: list[Violation] = []
         self._path_proved = 0
         self._path_inconclusive: list[str] = []
@@ -306,10 +352,14 @@ class Explorer:
         return SymBool(self._vars[name])
 
     def _assume_pre(self, t: Any) -> None:
-        key = t.sexpr()
-        if all(p.sexpr() != key for p in self.pre):
-            self.pre.append(t)
+        key = t.get_id()
+        if key in self._pre_ids:
+            return
+        self._pre_ids.add(key)
+        self.pre.append(t)
         self.solver.add(t)
+        if self.solver_depth > 0:
+            self._base_dirty = True  # added inside a decision frame: rebuild the base before the next path
         self.model = None
 
     def assume(self, cond: Any) -> None:
@@ -338,24 +388,28 @@ class Explorer:
 
     # -- fork point ------------------------------------------------------------------
     def decide(self, t: Any) -> bool:
-        t = z3.simplify(t)
-        if z3.is_true(t):
-            return True
-        if z3.is_false(t):
-            return False
-        key = t.sexpr()
+        key = t.get_id()
+        cst = _CONSTS.get(key, 0)
+        if cst == 0:
+            cst = True if z3.is_true(t) else False if z3.is_false(t) else None
+            _CONSTS[key] = cst
+            _CONST_KEEP.append(t)
+        if cst is not None:
+            return cst
         if self.pos < _builtin_len(self.trail):
             d = self.trail[self.pos]
             if d.key != key:
                 raise HarnessError(
-                    f"non-deterministic re-execution at decision {self.pos}: {d.key} vs {key}"
+                    f"non-deterministic re-execution at decision {self.pos}: {d.term} vs {t}"
                 )
+            if d.taken:
+                c = d.term
+            else:
+                if d.neg is None:
+                    d.neg = z3.Not(d.term)
+                c = d.neg
+            self._assert_decision(c)
             self.pos += 1
-            c = t if d.taken else z3.Not(t)
-            self.solver.add(c)
-            self.pc.append(c)
-            if self.model is not None and self._model_says(c) is not True:
-                self.model = None
             return d.taken
         # new decision
         hint = self._model_says(t)
@@ -366,7 +420,7 @@ class Explorer:
         if not can_true:
             r = self._check(t)
             if r == z3.unknown:
-                raise Inconclusive(f"unknown on {key}")
+                raise Inconclusive(f"unknown on {t}")
             can_true = r == z3.sat
             if can_true:
                 model_true = self.solver.model()
@@ -375,7 +429,7 @@ class Explorer:
         elif not can_false:
             r = self._check(z3.Not(t))
             if r == z3.unknown:
-                raise Inconclusive(f"unknown on not {key}")
+                raise Inconclusive(f"unknown on not {t}")
             can_false = r == z3.sat
             if can_false:
                 model_false = self.solver.model()
@@ -386,13 +440,23 @@ class Explorer:
             taken, has_alt = True, False
         else:
             taken, has_alt = False, False
-        self.trail.append(Decision(taken, has_alt, key))
-        self.pos += 1
+        self.trail.append(Decision(taken, has_alt, key, t))
         c = t if taken else z3.Not(t)
-        self.solver.add(c)
-        self.pc.append(c)
+        self._assert_decision(c)
+        self.pos += 1
         self.model = model_true if taken else model_false
         return taken
+
+    def _assert_decision(self, c: Any) -> None:
+        """Decision number self.pos: one solver frame per decision, shared by paths with a common prefix."""
+        self.pc.append(c)
+        if self.pos < self.solver_depth:
+            return  # still asserted from the previous path (common prefix)
+        self.solver.push()
+        self.solver.add(c)
+        self.solver_depth += 1
+        if self.model is not None and self._model_says(c) is not True:
+            self.model = None
 
     # -- assertions ------------------------------------------------------------------
     def prove(self, cond: Any, label: str, detail: Any = None) -> bool:
@@ -404,7 +468,7 @@ class Explorer:
             m = self.current_model()
             self._path_violations.append(Violation(label, m, detail))
             return False
-        t = z3.simplify(term_of(cond))
+        t = term_of(cond)
         if z3.is_true(t):
             self._path_proved += 1
             self.stats.proved += 1
@@ -451,16 +515,22 @@ class Explorer:
         global _CUR
         results: list[PathResult] = []
         self.trail = []
+        self._base_dirty = True
         prev = _CUR
         _CUR = self
         try:
             while True:
                 if _builtin_len(results) >= self.max_paths:
                     raise PathLimit(f"more than {self.max_paths} paths")
-                self.solver.reset()
-                self.solver.set("timeout", self.timeout_ms)
-                for p in self.pre:
-                    self.solver.add(p)
+                if self._base_dirty or self.solver_depth > _builtin_len(self.trail):
+                    # (re)build the base frame; happens on the first path and whenever a
+                    # precondition was first declared below the base frame
+                    self.solver.reset()
+                    self.solver.set("timeout", self.timeout_ms)
+                    for p in self.pre:
+                        self.solver.add(p)
+                    self.solver_depth = 0
+                    self._base_dirty = False
                 self.pc = []
                 self.pos = 0
                 self.model = None
@@ -501,6 +571,10 @@ class Explorer:
                 last = self.trail[-1]
                 last.taken = not last.taken
                 last.has_alt = False
+                keep = _builtin_len(self.trail) - 1  # frames of decisions before the flipped one
+                if self.solver_depth > keep:
+                    self.solver.pop(self.solver_depth - keep)
+                    self.solver_depth = keep
         finally:
             _CUR = prev
         return results
